@@ -493,3 +493,81 @@ def option_forwarding(idx, rep, rule, fi, alg_param, rule_name="auto-options"):
             why = f"`{ast.unparse(c)[:60]}`: configuration not recognised"
         rep.decide(verdict, rule_name, f"{construct}:{k}", why, detail="" if verdict else "dropped", locs=loc)
     return n
+
+
+NARY_KINDS = ("Product", "Sum", "Kronecker", "KronSum", "BlockDiag", "Concatenated")
+_META_ATTRS = {"xnp", "dtype", "device", "shape"}
+
+
+def arity_coverage(idx, rule):
+    """A dispatch rule for an n-ary composite (Product, Sum, Kronecker, ...) that takes its parts by CONSTANT index (`A.Ms[0]`,
+    `A.Ms[1]`) and never looks at the sequence as a whole handles a fixed number of parts: unless the number is pinned (a `len(A.Ms)`
+    test in the rule's condition or in a raise / assert guard) the remaining parts are silently dropped -- `dot()` flattens products,
+    so `(c*A) @ B` is Product(c, A, B).  Reads of a part's metadata only (`A.Ms[0].xnp / .dtype / .device`) do not count.
+    -> list of (ok, text, node); empty when the rule does not index its parts by constants."""
+    import ast as _ast
+    from sa import dataflow as _df
+    out = []
+    fi = rule.func
+    for prm, kinds in zip(rule.params, rule.types):
+        pname = prm[0]
+        ks = sorted(kinds)
+        if len(ks) != 1 or ks[0] not in NARY_KINDS:
+            continue
+        const_reads, whole = [], False
+        nodes = list(_df.body_nodes(fi.node))
+        cond = getattr(rule, "cond", None)
+        cond_nodes = list(_ast.walk(cond)) if isinstance(cond, _ast.AST) else []
+        cond_param = None
+        if isinstance(cond, _ast.Lambda) and cond.args.args:
+            # the condition's own name for this parameter (same position)
+            pos = [p[0] for p in rule.params].index(pname)
+            if pos < len(cond.args.args):
+                cond_param = cond.args.args[pos].arg
+        for n in nodes + cond_nodes:
+            if not (isinstance(n, _ast.Attribute) and n.attr == "Ms" and isinstance(n.value, _ast.Name) and n.value.id in (pname, cond_param)):
+                continue
+            par = getattr(n, "_parent", None)
+            in_cond = any(n is x for x in cond_nodes)
+            if isinstance(par, _ast.Subscript) and par.value is n and not isinstance(par.slice, _ast.Slice):
+                i = par.slice
+                v = i.value if isinstance(i, _ast.Constant) else (-i.operand.value if isinstance(i, _ast.UnaryOp) and isinstance(i.op, _ast.USub) and isinstance(i.operand, _ast.Constant) else None)
+                if isinstance(v, int):
+                    gp = getattr(par, "_parent", None)
+                    meta_only = isinstance(gp, _ast.Attribute) and gp.value is par and gp.attr in _META_ATTRS
+                    if not meta_only and not in_cond:
+                        const_reads.append((v, par))
+                    continue
+            whole = True  # iterated, measured, sliced, starred, passed on
+        if not const_reads or whole and not cond_nodes:
+            if not const_reads:
+                continue
+        # is the number of parts pinned?
+        def pins(nodes_):
+            for x in nodes_:
+                if isinstance(x, _ast.Compare) and any(isinstance(y, _ast.Call) and isinstance(y.func, _ast.Name) and y.func.id == "len" and y.args
+                                                       and isinstance(y.args[0], _ast.Attribute) and y.args[0].attr == "Ms" for y in _ast.walk(x)):
+                    return True
+            return False
+        pinned = pins(cond_nodes) or pins(nodes)
+        body_whole = any(isinstance(n, _ast.Attribute) and n.attr == "Ms" and isinstance(n.value, _ast.Name) and n.value.id == pname
+                         and not (isinstance(getattr(n, "_parent", None), _ast.Subscript) and getattr(n, "_parent").value is n
+                                  and not isinstance(getattr(n, "_parent").slice, _ast.Slice)) for n in nodes)
+        idxs = sorted({v for v, _ in const_reads})
+        if pinned or body_whole:
+            out.append((True, f"parts {idxs} of `{pname}` are taken by index" + (" and the number of parts is pinned by a len() test" if pinned else "; the remaining parts are reached through the whole sequence"),
+                        const_reads[0][1]))
+        else:
+            out.append((False, f"the rule takes parts {idxs} of the {ks[0]} `{pname}` by constant index and never looks at the rest: nothing pins the number of parts "
+                               f"(no len({pname}.Ms) test in the condition or a guard), so for a {ks[0]} with more parts the others are silently dropped", const_reads[0][1]))
+    return out
+
+
+def arity_obligations(idx, rep, rules, rule_name="part-coverage"):
+    """part-coverage obligations (see arity_coverage) for an iterable of dispatch rules"""
+    n = 0
+    for rule in rules:
+        for ok_, text_, node_ in arity_coverage(idx, rule):
+            n += 1
+            rep.decide(ok_, rule_name, rule.role, text_, detail="" if ok_ else "fixed-arity", locs=[idx.loc(rule.func.module, node_)])
+    return n
